@@ -73,18 +73,19 @@ const (
 // Slot is the simulator's record of one goroutine. A slot is written only by
 // its own goroutine and by the controller while that goroutine is blocked.
 type Slot struct {
-	goid     uint64
-	Kind     int
-	Key      uintptr
-	Home     uintptr // workers: the scheduler they belong to (Key follows the scheduler whose hooks the goroutine passed last, which differs while a worker runs a nested directive)
-	parked   bool
-	granted  bool
-	Site     int
-	LastSite int
-	Exited   bool
-	Foreign  bool
-	Tag      int
-	lastRun  int // step of the last grant (fair default order)
+	goid       uint64
+	Kind       int
+	Key        uintptr
+	pendingRaw uintptr
+	Home       uintptr // workers: the scheduler they belong to (Key follows the scheduler whose hooks the goroutine passed last, which differs while a worker runs a nested directive)
+	parked     bool
+	granted    bool
+	Site       int
+	LastSite   int
+	Exited     bool
+	Foreign    bool
+	Tag        int
+	lastRun    int // step of the last grant (fair default order)
 
 	holdKind, holdArg, holdArg2 int
 
@@ -102,9 +103,10 @@ type Slot struct {
 }
 
 type schedState struct {
-	key        uintptr
-	killed     bool // loop was granted at LPreKill: readyc and finishedc get closed
-	waitClosed bool // Wait closed enqueuec
+	key        uintptr // number of the scheduler within the run (1, 2, ...)
+	raw        uintptr // address of its ready channel
+	killed     bool    // loop was granted at LPreKill: readyc and finishedc get closed
+	waitClosed bool    // Wait closed enqueuec
 	loopSlot   int
 	creator    int // slot of the goroutine that called Config.New
 	creatorTag int // that goroutine's tag at the time
@@ -266,6 +268,35 @@ func (s *Sim) park(sl *Slot, site int) {
 	sl.LastSite = site
 }
 
+// The scheduler's hooks identify a scheduler by the address of its ready
+// channel. Addresses are reused once a scheduler has been collected, and when
+// that happens is the garbage collector's business, so the simulator never
+// keys anything on them: newSched (called at the first hook of a new
+// scheduler, New:after-go-spawner) gives every scheduler a number of its own,
+// and xlate maps an address to the newest scheduler that had it.
+//
+//go:norace
+func (s *Sim) newSched(raw uintptr) uintptr {
+	if s.nsched >= MaxScheds {
+		s.Invalid = "too many schedulers"
+		s.abort = true
+		return s.sched[0].key
+	}
+	s.sched[s.nsched] = schedState{key: uintptr(s.nsched + 1), raw: raw, loopSlot: -1}
+	s.nsched++
+	return s.sched[s.nsched-1].key
+}
+
+//go:norace
+func (s *Sim) xlate(raw uintptr) uintptr {
+	for i := s.nsched - 1; i >= 0; i-- {
+		if s.sched[i].raw == raw {
+			return s.sched[i].key
+		}
+	}
+	return s.newSched(raw)
+}
+
 //go:norace
 func (s *Sim) schedOf(key uintptr) *schedState {
 	for i := 0; i < s.nsched; i++ {
@@ -278,9 +309,9 @@ func (s *Sim) schedOf(key uintptr) *schedState {
 		s.abort = true
 		return &s.sched[0]
 	}
-	s.sched[s.nsched] = schedState{key: key, loopSlot: -1}
-	s.nsched++
-	return &s.sched[s.nsched-1]
+	s.Invalid = "unknown scheduler"
+	s.abort = true
+	return &s.sched[0]
 }
 
 //go:norace
@@ -289,6 +320,18 @@ func (s *Sim) hookYield(site int, key uintptr) {
 		return
 	}
 	sl := s.lookup()
+	raw := key
+	switch {
+	case raw == 0:
+	case site == scheduler.VerifNewSpawned:
+		key = s.newSched(raw)
+	case site == scheduler.VerifSpStart:
+		// the spawner may reach its first hook before the goroutine that started it
+		// has announced the scheduler: resolve the address once released
+		sl.pendingRaw, key = raw, 0
+	default:
+		key = s.xlate(raw)
+	}
 	if sl.Kind == KUnknown {
 		switch site {
 		case scheduler.VerifWStart:
@@ -318,6 +361,10 @@ func (s *Sim) hookYield(site int, key uintptr) {
 	s.park(sl, site)
 	if s.abort {
 		return
+	}
+	if sl.pendingRaw != 0 {
+		key = s.xlate(sl.pendingRaw)
+		sl.Key, sl.pendingRaw = key, 0
 	}
 	switch site {
 	case scheduler.VerifWExit, scheduler.VerifLExit:
@@ -394,6 +441,7 @@ func (s *Sim) hookLoopSelect(key uintptr, peek func() scheduler.VerifSelectInfo)
 		return 0
 	}
 	sl := s.lookup()
+	key = s.xlate(key)
 	sl.Key = key
 	s.park(sl, scheduler.VerifLSelect)
 	if s.abort {
@@ -481,6 +529,7 @@ func (s *Sim) hookArm(key uintptr, arm int) {
 		return
 	}
 	sl := s.lookup()
+	key = s.xlate(key)
 	sl.ArmFired = arm
 	if sl.mask != 0 && sl.mask != arm {
 		s.Invalid = fmt.Sprintf("arm %d fired under mask %d", arm, sl.mask)
@@ -504,6 +553,7 @@ func (s *Sim) hookWaitSelect(key uintptr, ctxDone func() bool) int {
 		return scheduler.VerifWaitFree
 	}
 	sl := s.lookup()
+	key = s.xlate(key)
 	sl.Key = key
 	s.park(sl, scheduler.VerifWaitSelect_)
 	if s.abort {
